@@ -17,7 +17,8 @@ CB_THEOREMS = ["Drand.Chain.Callback." + t for t in [
     "stuck_blocks", "c12_stall_is_permanent", "c12_addcallback_stall_counterexample", "c12_worker_fifo",
     "tie_callback_put_shape", "tie_callback_queue_const"]]
 CACHE_THEOREMS = ["Drand.Beacon." + t for t in [
-    "c12_cache_inv", "c12_cache_bound", "c12_rounds_listed", "c12_no_wedge", "c12_append_takes", "c12_isolation", "c12_flush_exact"]]
+    "c12_cache_inv", "c12_cache_bound", "c12_rounds_listed", "c12_no_wedge", "c12_append_takes", "c12_isolation", "c12_flush_exact",
+    "append_duplicate", "tie_cache_append_variant"]]
 THEOREMS = CB_THEOREMS + CACHE_THEOREMS
 TRUSTED = ["Lean 4 kernel; axioms per theorem under coverage.axioms",
            "modelled, not verified: goroutines as explicit steps, a buffered channel as a bounded FIFO list, sync.RWMutex as 'writers wait for readers and vice versa' (Go's writer preference is not needed for any statement)",
